@@ -28,6 +28,11 @@ type profile struct {
 	middlewares []string // choices
 	tweak       func(t *rapid.T, c *harness.Config)
 	acctTweak   func(t *rapid.T, i int, a *harness.AccountSpec, c *harness.Config)
+	// faultPct > 0: that share of the requests has one backend call failed
+	// (kinds from faultKinds, default generic). Only for monitors whose rules
+	// are pure safety rules, or that exempt faulted steps from must-succeed rules.
+	faultPct   int
+	faultKinds []string
 }
 
 var goodPWs = []string{"Passw0rd!A", "Passw0rd!B", "Passw0rd!C", "Passw0rd!D", "Zq9#mmmmX", "N3w-Secret_pw"}
@@ -35,7 +40,9 @@ var badPolicyPWs = []string{"short1!", "alllowercase1!", "NoDigits!!", "NoSymbol
 
 func pick[T any](t *rapid.T, label string, xs ...T) T { return rapid.SampledFrom(xs).Draw(t, label) }
 
-func chance(t *rapid.T, label string, pct int) bool { return rapid.IntRange(0, 99).Draw(t, label) < pct }
+func chance(t *rapid.T, label string, pct int) bool {
+	return rapid.IntRange(0, 99).Draw(t, label) < pct
+}
 
 func perm(t *rapid.T, label string, xs []string) []string {
 	out := append([]string(nil), xs...)
@@ -831,7 +838,20 @@ func kindEnabled(k string, c harness.Config) bool {
 func genCase(t *rapid.T, p profile) Case {
 	cfg := genConfig(t, p)
 	e := genEnv{cfg: cfg, nAcct: len(cfg.Accounts), nBrows: cfg.Browsers}
-	return Case{Cfg: cfg, Ops: genOps(t, p, e)}
+	c := Case{Cfg: cfg, Ops: genOps(t, p, e)}
+	if p.faultPct > 0 {
+		kinds := p.faultKinds
+		if len(kinds) == 0 {
+			kinds = []string{"generic"}
+		}
+		for i := range c.Ops {
+			if c.Ops[i].FA == 0 && chance(t, "fault", p.faultPct) {
+				c.Ops[i].FA = pick(t, "faultat", 1, 1, 1, 2, 2, 3, 3, 4, 5, 6, 7)
+				c.Ops[i].FK = pick(t, "faultkind", kinds...)
+			}
+		}
+	}
+	return c
 }
 
 var allModules = []string{"auth", "confirm", "lock", "logout", "oauth2", "otp", "recover", "register", "remember"}
